@@ -147,6 +147,9 @@ package revocation
 //@   ensures[C19,C03] no_crl_demands_without_crl_mode: !crlEnabled(c.ModeParsed) ==> err == nil
 //@   ensures err == nil && crlEnabled(c.ModeParsed) ==> c.CRLConfig != nil
 
+// OCSPRevocationChecker.Provision never fails: the error branch after it is dead code
+//@ dead CertRevocationValidator.Provision return4
+
 //@ func CertRevocationValidator.Provision
 //@   props C03 C19 C15
 //@   requires c != nil && nolocks()
